@@ -129,3 +129,20 @@ def relocate_program(rng, k):
                   {"name": "e", "expr": e2, "probability": 1.0}]
     p["max_cycles"] = 2
     return p
+
+
+def framework_program(rng, k):
+    """grand canonical: three-atom molecules INTERLEAVED in index order with frozen framework atoms (FixAtoms on atoms right behind a molecule):
+    a rejected deletion removes several rows in front of a constrained atom"""
+    p = gen_program(rng, k, ensembles=("gc",), multi_insert=False)
+    labels = [0, 0, 0, -1, 1, 1, 1, -1, 2, 2, 2, -1, -1][: 8 + 4 * (k % 2)] if k % 2 else [0, 0, 0, -1, 1, 1, 1, -1]
+    n = len(labels)
+    p.update(natoms=n, symbols=[("Cu" if x < 0 else "OHH"[i % 3] if False else ["O", "H", "H"][[j for j, y in enumerate(labels) if y == x].index(i)]) for i, x in enumerate(labels)],
+             positions=[[rng.randint(0, 60) / 8 for _ in range(3)] for _ in range(n)], fixed=[i for i, x in enumerate(labels) if x < 0], N0=len({x for x in labels if x >= 0}))
+    p["exchange"] = {"symbols": ["O", "H", "H"], "positions": [[0.0, 0.0, 0.0], [0.96, 0.0, 0.0], [-0.24, 0.93, 0.0]]}
+    p["leaves"] = [{"kind": "disp", "labels": list(labels), "op": "translation_rotation"},
+                   {"kind": "exch", "labels": list(labels), "op": "translation_rotation", "bias": 0.3, "default_label": None}]
+    p["moves"] = [{"name": "d", "expr": 0, "probability": 1.0}, {"name": "e", "expr": 1, "probability": 2.0}]
+    p.pop("fixcom", None)
+    p.pop("pre_run_edit", None)
+    return p
